@@ -159,6 +159,14 @@ pub fn big_histories(tier: &str) -> Vec<Vec<Op>> {
             ]);
         }
     }
+    // (iii'') the log ends exactly at / inside the last 32-bit word of the last bitfield page, so
+    // that word is the tail of the bitfield file when it is read back (round-6 seeded change)
+    for n in [32768u32, 32750] {
+        if quick || n != 32768 {
+            out.push(vec![Op::BatchN(n), Op::Reopen, Op::Append(p1(1)), Op::Reopen]);
+        }
+        out.push(vec![Op::BatchN(n), Op::Append(p1(2)), Op::Reopen, Op::Clear(n as u64 - 3, n as u64 - 1), Op::Reopen]);
+    }
     if !quick {
         out.push(vec![
             Op::BatchN(32768),
